@@ -24,6 +24,9 @@ structure JwsLaws (P : Prims) (E : Env) : Prop where
   hmacBytes : ∀ h k m s, P.hmac h k m = .ok s → IsBytes s
   sigBytes : ∀ a k m s, P.sigSign a k m = .ok s → IsBytes s
   sigRound : ∀ a sk pk m s, PubOf E sk pk → P.sigSign a sk m = .ok s → P.sigVerify a pk m s = .ok true
+  /-- RFC 8017 §8.1.1 / §8.2.1: an RSA signature has the octet length of the modulus (I2OSP to length k). -/
+  rsaLen : ∀ a sk pk m s, PubOf E sk pk → (a.cls = "RSAAlgModel" ∨ a.cls = "RSAPSSAlgModel") → P.sigSign a sk m = .ok s →
+    s.length = (pk.bits + 7) / 8
   hmacSame : ∀ sk pk, PubOf E sk pk → pk.raw = sk.raw
   ecdsaRound : ∀ h sk pk m r s, PubOf E sk pk → P.ecdsaSign h sk m = .ok (r, s) →
     r < 2 ^ sk.bits ∧ s < 2 ^ sk.bits ∧ 0 < sk.bits ∧ P.ecdsaVerify h pk m r s = .ok true
@@ -53,13 +56,15 @@ theorem sign_then_verify (P : Prims) (E : Env) (L : JwsLaws P E) (a : JwsAlgRow)
     obtain ⟨_, _, _, hk, hs⟩ := h
     simp at hk
     refine ⟨?_, L.sigBytes _ _ _ _ hs⟩
-    simp [hc, hpub.op, hpub.kty, hk, L.sigRound a sk pk msg sig hpub hs, bind, Except.bind, ensure]
+    have hlen := L.rsaLen a sk pk msg sig hpub (Or.inl hc) hs
+    simp [hc, hpub.op, hpub.kty, hk, hlen, L.sigRound a sk pk msg sig hpub hs, bind, Except.bind, ensure]
   · next hc =>
     simp only [bind_eq_ok, ensure_eq_ok] at h
     obtain ⟨_, _, _, hk, hs⟩ := h
     simp at hk
     refine ⟨?_, L.sigBytes _ _ _ _ hs⟩
-    simp [hc, hpub.op, hpub.kty, hk, L.sigRound a sk pk msg sig hpub hs, bind, Except.bind, ensure]
+    have hlen := L.rsaLen a sk pk msg sig hpub (Or.inr hc) hs
+    simp [hc, hpub.op, hpub.kty, hk, hlen, L.sigRound a sk pk msg sig hpub hs, bind, Except.bind, ensure]
   · next hc =>
     simp only [bind_eq_ok, ensure_eq_ok, pure_eq_ok] at h
     obtain ⟨_, hk1, _, hk2, _, _, ⟨r, s⟩, hrs, rb, hrb, sb, hsb, rfl⟩ := h
